@@ -1,15 +1,24 @@
-"""C11: drive the real strax planner (Context.get_components / get_iter / make) on generated plugin graphs.
+"""C11: drive the real strax planner (Context.get_components / get_iter / make) and the two processors'
+wiring on generated plugin graphs.
 
 A *graph* is a JSON-able dict
   {"n": <number of data types>, "kinds": [kind id per data type],
    "plugins": [{"prov": [dt...], "deps": [dt...], "sw": [save_when per output]} ...]}
 data types are integers 0..n-1 numbered topologically (every dependency of a plugin is smaller than
 every one of its outputs); the strax names are "t00", "t01", ...; data kinds "k00", ...
+The temporary merge plugin get_iter registers for several same-kind targets is data type n, plugin
+index len(plugins) (that is where the model's get_iter_rewrite puts it).
+
+A *case* is {"frontends": [{"readonly","take_only","exclude","stored"}...], "forbid": [...],
+  "forbid_all", "fuzzy", "allow_incomplete", "targets": [...], "save": [...],
+  "time_range", "selection", "columns"}.
 """
+import contextlib
+import io
+import logging
 import os
 import shutil
 import threading
-import logging
 
 import numpy as np
 import strax
@@ -32,7 +41,9 @@ def kname(i):
     return "k%02d" % i
 
 
-def tid(name):
+def tid(name, graph=None):
+    if name.startswith("_temp"):
+        return graph["n"] if graph else -1
     return int(name[1:])
 
 
@@ -115,7 +126,7 @@ def build_classes(graph, tag="G"):
 
 
 def set_policies(classes, graph, force_always=False):
-    """(Re)set the class-level save_when (the registry holds classes; tests in strax do the same)."""
+    """(Re)set the class-level save_when (the registry holds classes; strax's own tests do the same)."""
     for cls, p in zip(classes, graph["plugins"]):
         sws = [3] * len(p["sw"]) if force_always else p["sw"]
         if len(p["prov"]) > 1:
@@ -124,10 +135,20 @@ def set_policies(classes, graph, force_always=False):
             cls.save_when = strax.SaveWhen(sws[0])
 
 
-def quiet():
-    for name in ("strax", "Context", "strax.context"):
-        logging.getLogger(name).setLevel(logging.CRITICAL)
-    logging.getLogger().setLevel(logging.CRITICAL)
+@contextlib.contextmanager
+def silence():
+    """strax prints ("Source finished!", "Removing old incomplete data") and logs; worker threads dump
+    tracebacks through threading.excepthook.  None of that may reach the check's stdout."""
+    old_hook = threading.excepthook
+    threading.excepthook = lambda args: None
+    logging.disable(logging.CRITICAL)
+    buf = io.StringIO()
+    try:
+        with contextlib.redirect_stdout(buf), contextlib.redirect_stderr(buf):
+            yield buf
+    finally:
+        logging.disable(logging.NOTSET)
+        threading.excepthook = old_hook
 
 
 def prepare_master(graph, classes, master_dir):
@@ -136,12 +157,14 @@ def prepare_master(graph, classes, master_dir):
         shutil.rmtree(master_dir)
     os.makedirs(master_dir)
     set_policies(classes, graph, force_always=True)
-    st = strax.Context(storage=[strax.DataDirectory(master_dir)], register=classes,
-                       allow_multiprocess=False, allow_lazy=False, timeout=20)
-    st.log.setLevel(logging.CRITICAL)
-    for d in range(graph["n"]):
-        st.make(RUN_ID, tname(d), processor="single_thread", progress_bar=False)
-    set_policies(classes, graph)
+    try:
+        with silence():
+            st = strax.Context(storage=[strax.DataDirectory(master_dir)], register=classes,
+                               allow_multiprocess=False, allow_lazy=False, timeout=20)
+            for d in range(graph["n"]):
+                st.make(RUN_ID, tname(d), processor="single_thread", progress_bar=False)
+    finally:
+        set_policies(classes, graph)
     out = {}
     for fn in sorted(os.listdir(master_dir)):
         parts = fn.split("-")
@@ -163,19 +186,17 @@ def listing(path):
     return out
 
 
-def temp_listing(path):
+def clean_temp(path):
     if not os.path.isdir(path):
-        return []
-    return sorted(fn for fn in os.listdir(path) if fn.endswith("_temp"))
+        return
+    for fn in os.listdir(path):
+        if fn.endswith("_temp"):
+            shutil.rmtree(os.path.join(path, fn), ignore_errors=True)
 
 
-class Case:
-    """One request: see run_case."""
-
-
-def make_context(graph, classes, case, master_dir, dirs, workdir):
-    """Build frontends (copying the chosen stored directories from the master) and the Context."""
-    fes = []
+def make_dirs(case, master_dir, dirs, workdir):
+    """(Re)create one directory per frontend holding copies of the chosen stored data."""
+    paths = []
     for k, fe in enumerate(case["frontends"]):
         path = os.path.join(workdir, "fe%d" % k)
         if os.path.exists(path):
@@ -183,6 +204,13 @@ def make_context(graph, classes, case, master_dir, dirs, workdir):
         os.makedirs(path)
         for d in fe["stored"]:
             shutil.copytree(os.path.join(master_dir, dirs[d]), os.path.join(path, dirs[d]))
+        paths.append(path)
+    return paths
+
+
+def make_context(graph, classes, case, paths):
+    fes = []
+    for fe, path in zip(case["frontends"], paths):
         fes.append(strax.DataDirectory(
             path, readonly=bool(fe["readonly"]),
             take_only=tuple(tname(d) for d in fe["take_only"]),
@@ -190,17 +218,25 @@ def make_context(graph, classes, case, master_dir, dirs, workdir):
     forbid = tuple(tname(d) for d in case["forbid"])
     if case.get("forbid_all"):
         forbid = forbid + ("*",)
-    opts = dict(allow_multiprocess=False, timeout=15, forbid_creation_of=forbid)
+    opts = dict(allow_multiprocess=False, timeout=8, forbid_creation_of=forbid)
     if case.get("fuzzy"):
         opts["fuzzy_for"] = (tname(graph["n"] - 1),)
     if case.get("allow_incomplete"):
         opts["allow_incomplete"] = True
     st = strax.Context(storage=fes, register=classes, **opts)
-    st.log.setLevel(logging.CRITICAL)
-    return st, [os.path.join(workdir, "fe%d" % k) for k in range(len(fes))]
+    return st
 
 
-ERR_KINDS = {"DataNotAvailable": 1, "ValueError": 2}
+def err_code(e):
+    if isinstance(e, strax.DataNotAvailable):
+        return 1
+    if isinstance(e, KeyError):
+        return 4
+    if isinstance(e, ValueError):
+        return 2
+    if isinstance(e, RuntimeError):
+        return 5
+    return 99
 
 
 def request_kwargs(case):
@@ -214,33 +250,172 @@ def request_kwargs(case):
     return kw
 
 
-def observe_components(st, case):
-    """Call the real get_components; returns a canonical observation dict."""
-    targets = tuple(tname(d) for d in case["targets"])
-    save = tuple(tname(d) for d in case["save"])
-    try:
-        comps = st.get_components(RUN_ID, targets=targets, save=save, **request_kwargs(case))
-    except strax.DataNotAvailable:
-        return {"err": 1}
-    except ValueError as e:
-        return {"err": 2, "msg": str(e)[:80]}
-    return components_obs(comps)
+def _fe_index(saver):
+    d = getattr(saver, "dirname", None)
+    if d is None:
+        return -1
+    base = os.path.basename(os.path.dirname(d))
+    return int(base[2:]) if base.startswith("fe") else -1
 
 
-def components_obs(comps):
-    plug_keys = [tid(k) for k in comps.plugins]            # insertion order = DFS preorder
-    plugin_ids = {}
+def components_obs(comps, graph):
+    """Canonical view of a strax.ProcessorComponents."""
+    n_plug = len(graph["plugins"])
+    plugin_of = {}
     for k, p in comps.plugins.items():
-        plugin_ids[tid(k)] = p._c11_index if hasattr(p, "_c11_index") else -1
+        plugin_of[tid(k, graph)] = getattr(p, "_c11_index", n_plug)
     savers = {}
     for k, v in comps.savers.items():
         if v:
-            savers[tid(k)] = len(v)
-    saver_dirs = {}
-    for k, v in comps.savers.items():
-        saver_dirs[tid(k)] = sorted(os.path.dirname(s.dirname) if hasattr(s, "dirname") else "?" for s in v)
-    return {"err": 0, "plugins": plug_keys, "plugin_of": plugin_ids,
-            "loaders": sorted(tid(k) for k in comps.loaders),
-            "loader_order": [tid(k) for k in comps.loaders],
-            "savers": savers, "saver_dirs": saver_dirs,
-            "targets": [k for k in comps.targets]}
+            savers[tid(k, graph)] = sorted(_fe_index(s) for s in v)
+    return {"err": 0,
+            "plugins": [tid(k, graph) for k in comps.plugins],      # insertion order = DFS preorder
+            "plugin_of": plugin_of,
+            "loaders": [tid(k, graph) for k in comps.loaders],
+            "savers": savers,
+            "final": [tid(k, graph) for k in comps.targets]}
+
+
+def observe_components(st, graph, case):
+    """Call the real get_components on the targets as given."""
+    targets = tuple(tname(d) for d in case["targets"])
+    save = tuple(tname(d) for d in case["save"])
+    try:
+        with silence():
+            comps = st.get_components(RUN_ID, targets=targets, save=save, **request_kwargs(case))
+    except Exception as e:  # noqa
+        return {"err": err_code(e), "exc": type(e).__name__, "msg": str(e)[:120]}, None
+    return components_obs(comps, graph), comps
+
+
+# ---------------------------------------------------------------------------------------------
+# Processor wiring, read off the constructed (not started) processors
+# ---------------------------------------------------------------------------------------------
+
+def _origin_of_iterable(src, topic, graph):
+    code = getattr(src, "gi_code", None)
+    frame = getattr(src, "gi_frame", None)
+    if code is not None and code.co_name == "iter" and frame is not None and "self" in frame.f_locals:
+        return "P%d" % getattr(frame.f_locals["self"], "_c11_index", len(graph["plugins"]))
+    return "L%d" % topic
+
+
+def observe_single_wiring(comps, graph):
+    """topic -> producer as registered in the PostOffice of a SingleThreadProcessor."""
+    try:
+        with silence():
+            proc = strax.SingleThreadProcessor(comps)
+    except RuntimeError as e:
+        return {"err": 5, "msg": str(e)[:100]}
+    po = proc.post_office
+    wires = []
+    for topic, it in po._producers.items():
+        t = tid(topic, graph)
+        wires.append("%d%s" % (t, _origin_of_iterable(it, t, graph)))
+    return {"err": 0, "wires": sorted(wires)}
+
+
+def observe_threaded_wiring(comps, graph, lazy=True):
+    """(topic, sender) pairs of a ThreadedMailboxProcessor: loader / build senders per mailbox and, for each
+    multi-output divider, the mailboxes it is given (restricted to its `outputs` when that is narrower)."""
+    try:
+        with silence():
+            proc = strax.ThreadedMailboxProcessor(comps, max_workers=None, allow_lazy=lazy, timeout=8)
+    except Exception as e:  # noqa
+        return {"err": err_code(e), "msg": str(e)[:100]}
+    wires = []
+    for name, mb in proc.mailboxes.items():
+        senders = [t for t in mb._threads if t._target == mb._send_from]
+        readers = [t for t in mb._threads if t._target != mb._send_from]
+        if name.endswith("_divide_outputs"):
+            idx = None
+            for t in senders:
+                idx = _origin_of_iterable(t._args[0], -1, graph)
+            for t in readers:
+                kw = dict(getattr(t._target, "keywords", None) or {})
+                kw.update(t._kwargs or {})
+                if "mailboxes" in kw:
+                    fed = list(kw["mailboxes"].keys())
+                    outs = kw.get("outputs")
+                    if outs is not None:
+                        fed = [k for k in fed if k in tuple(outs)]
+                    for k in fed:
+                        wires.append("%d%s" % (tid(k, graph), idx))
+        else:
+            for t in senders:
+                tt = tid(name, graph)
+                wires.append("%d%s" % (tt, _origin_of_iterable(t._args[0], tt, graph)))
+    return {"err": 0, "wires": sorted(wires)}
+
+
+# ---------------------------------------------------------------------------------------------
+# End-to-end execution (get_array / make) with counters, directory listings, sender log
+# ---------------------------------------------------------------------------------------------
+
+def run_exec(st, graph, case, paths, entry="get_array", processor="single_thread"):
+    """Run the request for real.  Returns the observation dict."""
+    targets = tuple(tname(d) for d in case["targets"])
+    if len(targets) == 1:
+        targets_arg = targets[0]
+    else:
+        targets_arg = targets
+    save = tuple(tname(d) for d in case["save"])
+    kw = request_kwargs(case)
+    COUNTS.clear()
+    before = [sorted(listing(p)) for p in paths]
+    spied = []
+    sends = {}
+    orig_gc = strax.Context.get_components
+    orig_send = strax.Mailbox.send
+
+    def spy_gc(self, *a, **k):
+        c = orig_gc(self, *a, **k)
+        spied.append(components_obs(c, graph))
+        return c
+
+    def spy_send(self, msg, msg_number=None):
+        if msg is not StopIteration:
+            with _COUNT_LOCK:
+                sends.setdefault(self.name, set()).add(threading.current_thread().name)
+        return orig_send(self, msg, msg_number=msg_number)
+
+    obs = {"entry": entry, "processor": processor}
+    strax.Context.get_components = spy_gc
+    strax.Mailbox.send = spy_send
+    try:
+        with silence():
+            try:
+                if entry == "make":
+                    st.make(RUN_ID, targets_arg, save=save, processor=processor, **kw)
+                    obs["rows"] = None
+                else:
+                    a = st.get_array(RUN_ID, targets_arg, save=save, processor=processor, progress_bar=False, **kw)
+                    obs["rows"] = int(len(a))
+                    obs["fields"] = sorted(a.dtype.names)
+                    obs["times"] = [int(x) for x in a["time"]]
+                obs["err"] = 0
+            except Exception as e:  # noqa
+                obs["err"] = err_code(e)
+                obs["exc"] = type(e).__name__
+                obs["msg"] = str(e)[:160]
+    finally:
+        strax.Context.get_components = orig_gc
+        strax.Mailbox.send = orig_send
+        # temporary merge plugins are removed by get_iter itself; be safe
+        for k in list(st._plugin_class_registry.keys()):
+            if k.startswith("_temp"):
+                del st._plugin_class_registry[k]
+    obs["counts"] = {int(k): int(v) for k, v in sorted(COUNTS.items())}
+    obs["before"] = before
+    obs["after"] = [sorted(listing(p)) for p in paths]
+    obs["components"] = spied[-1] if spied else None
+    obs["n_plans"] = len(spied)
+    multi = {}
+    for mb, names in sends.items():
+        if mb.endswith("_divide_outputs_mailbox"):
+            continue
+        if len(names) > 1:
+            multi[mb.replace("_mailbox", "")] = sorted(names)
+    obs["multi_sender_mailboxes"] = multi
+    obs["senders"] = {k: sorted(v) for k, v in sorted(sends.items())}
+    return obs
